@@ -693,6 +693,30 @@ class Unit:
                 rel, kind, name = d[1], d[2], d[3]
                 out.append(self.emit_item(rel, kind, name, set(d[4:])))
                 i += 1
+            elif cmd == 'slice':
+                # E9: //@slice <file> <fn path> <k> <line text>  — the statements of the function body that
+                # follow the k-th line whose stripped text equals <line text>, verbatim, up to the end of the body
+                dd = s[3:].strip().split(None, 4)
+                rel, path, k, text = dd[1], dd[2], int(dd[3]), dd[4].strip()
+                src = self.source(rel)
+                st_tok, fn_idx, bo, bc = src.find_fn(path, None)
+                body = src.src[src.toks[bo].end:src.toks[bc].start]
+                blines = body.split('\n')
+                seen = 0
+                pos = None
+                for idx, bl in enumerate(blines):
+                    if bl.strip() == text:
+                        seen += 1
+                        if seen == k:
+                            pos = idx
+                            break
+                if pos is None:
+                    raise ExtractError(f'lost anchor: slice line `{text}` (occurrence {k}) not found in {path}')
+                sl = '\n'.join(blines[pos + 1:])
+                raw = src.src[src.toks[st_tok].start:src.toks[bc].end]
+                self.items.append({'item': f'slice of fn {path} after `{text}`', 'file': rel, 'sha256_16': sha(raw), 'rules': ['E9']})
+                out.append(sl)
+                i += 1
             elif cmd == 'fn':
                 rel, path = d[1], d[2]
                 opts = {}
